@@ -1269,7 +1269,15 @@ class FnRewriter:
                         key = (callee, cnt[callee])
                         self.log.append({'rule': 'closure-map', 'fn': self.fnkey, 'line': self.sf.line_of(t.start),
                                          'what': 'closure %d is `%s %d`' % (n, callee, cnt[callee])})
-                        if key in self.ov.get('closures_named', {}):
+                        if key in self.ov.get('closures_named', {}) and key in self.ov.get('optional_named', set()) \
+                                and not self._closure_params_match(j, ce, self.ov['closures_named'][key][0]):
+                            # an OPTIONAL named annotation whose parameter names differ from the closure literal's:
+                            # the code now passes a different closure to this callee; the annotated header would not
+                            # bind the names its body uses, so the annotation is not applied (it only adds knowledge)
+                            self.log.append({'rule': 'R8c', 'fn': self.fnkey, 'line': self.sf.line_of(t.start),
+                                             'what': 'optional closure annotation `%s %d` not applied: parameter names differ' % key})
+                            self.__dict__.setdefault('_named_used', set()).add(key)
+                        elif key in self.ov.get('closures_named', {}):
                             if n in self.ov['closures']:
                                 raise Undecided('%s: closure %d is annotated both by ordinal and as %s %d'
                                                 % (self.fnkey, n, callee, cnt[callee]))
@@ -1350,73 +1358,32 @@ class FnRewriter:
                     r22 = self._auto_closure(j, ce, hi, pathmap) if overlay_piece else None
                     orc = self.unit.get('_oracle') or {}
                     orc_here = r22 is None and overlay_piece and (callee or '?') in orc.get(self.fnkey, ())
-                    cs_bar = j
                     if orc_here:
-                        ar, depth, seen_tok = 0, 0, False
-                        for x in toks[j + 1:ce]:
-                            if x.kind in ('ws', 'comment'):
-                                continue
-                            seen_tok = True
-                            if x.kind == 'punct' and x.text in '([<':
+                        # oracle mode (vunit, second opinion on a failure in a function that has gained a closure
+                        # without a contract): the CALL that receives the closure is followed by `.__orc()`, an
+                        # assumed identity whose postcondition is `false`, so every path through that call is
+                        # discharged vacuously; an obligation that STILL fails does not depend on what the closure
+                        # returns. Never used for a result that is reported as proved.
+                        k2 = j - 1
+                        depth = 0
+                        open_idx = None
+                        while k2 >= lo:
+                            tk = toks[k2]
+                            if tk.kind == 'punct' and tk.text in ')]}':
                                 depth += 1
-                            elif x.kind == 'punct' and x.text in ')]>':
+                            elif tk.kind == 'punct' and tk.text in '([{':
+                                if depth == 0:
+                                    open_idx = k2 if tk.text == '(' else None
+                                    break
                                 depth -= 1
-                            elif x.kind == 'punct' and x.text == ',' and depth == 0:
-                                ar += 1
-                        ar = ar + 1 if seen_tok else 0
-                        if ar <= 3:
-                            out('__oracle%d(' % ar, j)
-                        else:
-                            orc_here = False
+                            k2 -= 1
+                        if open_idx is not None:
+                            self.__dict__.setdefault('_orc_after', set()).add(match_close(toks, open_idx))
+                            self.log.append({'rule': 'oracle', 'fn': self.fnkey, 'line': self.sf.line_of(t.start),
+                                             'what': 'the call receiving closure %d is followed by .__orc() (oracle mode)' % n})
                     for q in range(j, ce + 1):
                         out(toks[q].text, q)
                     j = ce + 1
-                    if orc_here:
-                        # oracle mode (vunit, second opinion on a failure in a function that has gained a closure
-                        # without a contract): the closure is given `ensures false`, i.e. every path through a call
-                        # of it is discharged vacuously; an obligation that STILL fails does not depend on what the
-                        # closure returns.  Never used for a result that is reported as proved.
-                        q = ce + 1
-                        while q < hi and toks[q].kind in ('ws', 'comment'):
-                            q += 1
-                        if toks[q].kind == 'punct' and toks[q].text == '-' and toks[q + 1].text == '>':
-                            while not (toks[q].kind == 'punct' and toks[q].text == '{'):
-                                q += 1
-                        if toks[q].kind == 'punct' and toks[q].text == '{':
-                            e = match_close(toks, q) + 1
-                        else:
-                            e = q
-                            while e < hi:
-                                te = toks[e]
-                                if te.kind == 'punct' and te.text in rustlex.OPEN:
-                                    e = match_close(toks, e) + 1
-                                    continue
-                                if te.kind == 'punct' and te.text in ',)]};':
-                                    break
-                                e += 1
-                        # arity: parameters at depth 0 between the bars
-                        arity, depth, seen_tok = 0, 0, False
-                        for x in toks[cs_bar + 1:ce]:
-                            if x.kind in ('ws', 'comment'):
-                                continue
-                            seen_tok = True
-                            if x.kind == 'punct' and x.text in '([<':
-                                depth += 1
-                            elif x.kind == 'punct' and x.text in ')]>':
-                                depth -= 1
-                            elif x.kind == 'punct' and x.text == ',' and depth == 0:
-                                arity += 1
-                        arity = arity + 1 if seen_tok else 0
-                        if arity <= 3:
-                            self.log.append({'rule': 'oracle', 'fn': self.fnkey, 'line': self.sf.line_of(t.start),
-                                             'what': 'closure %d wrapped in __oracle%d (oracle mode)' % (n, arity)})
-                            # the header has been emitted already: re-open the wrapper in front of it is not
-                            # possible, so the wrapper call is emitted around a second copy -- instead the header
-                            # emission below is skipped in oracle mode (see `orc_wrap`)
-                            self._emit_range(ce + 1, e, out, rw, pathmap, in_body, overlay_piece)
-                            out(')', e - 1)
-                            j = e
-                            continue
                     if r22 is None and overlay_piece:
                         # a closure the verifier knows nothing about (no annotation, no automatic postcondition):
                         # recorded so that vunit can compare with the unit's closure fingerprint
@@ -1446,7 +1413,47 @@ class FnRewriter:
                 j += 1
                 continue
             out(t.text, j)
+            if j in getattr(self, '_orc_after', ()):
+                out('.__orc()', j)
             j += 1
+
+    def _closure_params_match(self, bar_o, bar_c, header_text):
+        """Do the plain-identifier parameters of the closure literal toks[bar_o..bar_c] carry the same names, in order,
+        as the annotated header text `|a: T, b: U| -> ..`?  Pattern parameters (tuples, `_`) count as matching."""
+        toks = self.sf.toks
+        def names(seq):
+            out, depth, expect = [], 0, True
+            for kind, text in seq:
+                if kind in ('ws', 'comment'):
+                    continue
+                if kind == 'punct' and text in '([<':
+                    if expect:
+                        out.append(None); expect = False
+                    depth += 1
+                elif kind == 'punct' and text in ')]>':
+                    depth -= 1
+                elif depth == 0 and kind == 'punct' and text == ',':
+                    expect = True
+                elif expect and kind == 'ident':
+                    if text in ('mut', 'ref'):
+                        continue
+                    out.append(None if text.startswith('_') else text); expect = False
+                elif expect and kind == 'punct' and text == '&':
+                    continue
+                elif expect:
+                    out.append(None); expect = False
+            return out
+        orig = names([(x.kind, x.text) for x in toks[bar_o + 1:bar_c]])
+        m = re.match(r'\s*(?:move\s+)?\|(.*?)\|', header_text, re.S)
+        if not m:
+            return True
+        try:
+            ann = names([(x.kind, x.text) for x in lex(m.group(1))])
+        except Exception:
+            return True
+        if len(orig) != len(ann):
+            return False
+        return all(a is None or b is None or a == b for a, b in zip(orig, ann))
 
     def _auto_closure(self, bar_o, bar_c, hi, pathmap):
         """R22: (marker, body_lo, body_hi, spec_text) if the closure literal whose header is toks[bar_o..bar_c]
@@ -2416,14 +2423,8 @@ def strip_attrs_and_docs(sf, s, e):
 
 
 ORACLE_FNS = '''
-#[verifier::external_body] fn __oracle0<R, F: FnOnce() -> R>(f: F) -> (g: F)
-    ensures g.requires(()), forall|r: R| #[trigger] g.ensures((), r) ==> false, { f }
-#[verifier::external_body] fn __oracle1<A, R, F: FnOnce(A) -> R>(f: F) -> (g: F)
-    ensures forall|a: A| #[trigger] g.requires((a,)), forall|a: A, r: R| #[trigger] g.ensures((a,), r) ==> false, { f }
-#[verifier::external_body] fn __oracle2<A, B, R, F: FnOnce(A, B) -> R>(f: F) -> (g: F)
-    ensures forall|a: A, b: B| #[trigger] g.requires((a, b)), forall|a: A, b: B, r: R| #[trigger] g.ensures((a, b), r) ==> false, { f }
-#[verifier::external_body] fn __oracle3<A, B, C, R, F: FnOnce(A, B, C) -> R>(f: F) -> (g: F)
-    ensures forall|a: A, b: B, c: C| #[trigger] g.requires((a, b, c)), forall|a: A, b: B, c: C, r: R| #[trigger] g.ensures((a, b, c), r) ==> false, { f }
+pub trait __OracleExt: Sized { fn __orc(self) -> (r: Self) ensures false; }
+impl<T> __OracleExt for T { #[verifier::external_body] fn __orc(self) -> (r: Self) { self } }
 '''
 
 
